@@ -134,6 +134,9 @@ def c17_divergence(pool, seed, tid, bt, table) -> dict:
         if deviates_many([(world, _single(tid, tgt), [last], _single(tid, tgt))])[0]:
             ops = [last]
             doc["history_needed"] = False
+            plain = [{"op": "opt", "t": tid}]
+            if last["op"] != "opt" and deviates_many([(world, _single(tid, tgt), plain, _single(tid, tgt))])[0]:
+                ops = plain
         else:
             doc["history_needed"] = True
             # keep resalt ops in place: they define the regime of the final call
@@ -218,8 +221,28 @@ def c17_divergence(pool, seed, tid, bt, table) -> dict:
         "witness": (evs[0] or {}).get("text") or (evs[0] or {}).get("text2"),
         "reference": (evs[1] or {}).get("text"),
     }
+    # restate a divergence found under the salted hash in terms of real address layouts (nothing patched)
+    doc["real_layout_witness"] = "this witness is a real-layout world" if world.get("A") is None else "none found"
+    try:
+        from sim.driver import have_setarch
+
+        if world.get("A") is not None and len(ops) == 1 and have_setarch():
+            specs = []
+            for h in (world["H"], 1, 2, 3):
+                for pad in (0, 1, 7, 64, 333, 1000):
+                    w = {"H": h, "A": None, "pad": pad, "norandomize": True, "D": world["D"], "R": world["R"], "G": "on", "Lg": "none"}
+                    specs.append((w, _single(tid, tgt), [{"op": "opt", "t": tid}]))
+            revs = pr.run_many(specs)
+            seen = {}
+            for sp, e in zip(specs, revs):
+                oc = _oc(e)
+                if oc is not None:
+                    seen.setdefault(oc, sp[0])
+            if len(seen) > 1:
+                doc["real_layout_witness"] = [{"world": w, "outcome": o} for o, w in list(seen.items())[:2]]
+    except Exception as exc:  # pylint: disable=broad-exception-caught
+        doc["real_layout_witness"] = "search failed: " + repr(exc)
     doc["probes"] = pr.probes
-    doc["real_layout_witness"] = "this witness is a real-layout world" if world.get("A") is None else "none searched"
     log(f"C17 divergence minimised with {pr.probes} probes: {len(ops)} ops, {len(workload.statements(tgt['text']))} statements")
     return doc
 
